@@ -324,7 +324,7 @@ func tryConcreteReplay(eng *Engine, rf *ReplayFile, r *OblResult, rep *FuncRepor
 		return
 	}
 	x := eng.newExec(fn, rep.fc)
-	s := &State{heap: map[string]*Term{}, locks: map[string]string{}, ghost: map[string]*Term{}}
+	s := &State{heap: map[string]*Term{}, locks: map[string]string{}, ghost: map[string]*Term{}, hbound: map[string]*Term{}}
 	s.alloc = Var("alloc!0", SInt)
 	env := &SpecEnv{x: x, s: s, names: map[string]Val{}, fnPkg: pkgOf(fn)}
 	var eqs []*Term
